@@ -27,6 +27,7 @@ def run(ctx):
              ('K-UPD', [gen.gen_upd(rng.fork('u%d' % k), k)[0] for k in range(ctx.budget(500, 20000))]),
              ('K-E2E', [gen.gen_e2e(rng.fork('e%d' % k), k, maxit_max=30, r_max=3, prior=rng.choice(['zero', 'garbage']))[0] for k in range(ctx.budget(300, 10000))]),
              ('K-E2E(degenerate: K > L, edgeless networks, zero affinity layers)', [degenerate_e2e(rng.fork('d%d' % k), 50000 + k)[0] for k in range(ctx.budget(200, 5000))]),
+             ('K-E2E(in-membership argument of any shape on entry, 2-3 realizations)', [gen.gen_e2e_vshape(rng.fork('vs%d' % k), 70000 + k, maxit_max=15, r=rng.rint(2, 3))[0] for k in range(ctx.budget(120, 4000))]),
              ('K-LAYOUT', gen.layout_cases(4))]
     for name, cs in comps:
         res = ctx.component(name + ' (implementation only)', cs, model=False, retain=False)
